@@ -904,7 +904,7 @@ pub fn setup(sp: &SetupProfile) -> BoxedStrategy<Setup> {
         Just(HandlerSpec::OFF).boxed()
     };
     let cfg = (
-        (1..4u8, sp.max_tx.0..sp.max_tx.1, proptest::strategy::Union::new(packet), notify),
+        (1..4u8, sp.max_tx.0..=sp.max_tx.1, proptest::strategy::Union::new(packet), notify),
         if per { periodic(2000, 9000) } else { Just(None).boxed() },
         if per { periodic(3000, 12000) } else { Just(None).boxed() },
         if per { periodic(200, 1500) } else { Just(None).boxed() },
